@@ -1256,6 +1256,7 @@ impl Ctx {
             mq.push(MQuery::VI(*k, *v, j));
             mq.push(MQuery::NI(*k, j));
         }
+        let (mpaths2, msibs2) = (mpaths.clone(), msibs.clone());
         let mcall = Call::Multi { root: Some(root.clone()), paths: mpaths, sibs: msibs, queries: mq, updates: updates.to_vec() };
         let mo = self.check_call(&mcall);
         let extra = format!("{}\n", mcall.to_line());
@@ -1348,6 +1349,33 @@ impl Ctx {
                     format!("per-path verify_update of write set #{} gives {} but root(apply S W) is {} (multi-proof: {})", ui, short(&pgot), hex(&exp), short(&got)),
                     &line,
                     &format!("{}{}\n", extra, vcall.to_line()),
+                );
+            }
+        }
+        // 5. the same write sets with the operations under ONE terminal out of order (three or more of
+        //    them, the last two swapped): the verifier must refuse, or answer the root of the SET
+        for w in updates.iter() {
+            let mut by_scope: BTreeMap<usize, Vec<usize>> = BTreeMap::new();
+            for (oi, o) in w.iter().enumerate() {
+                if let Some(j) = scope_of(&o.0) {
+                    by_scope.entry(j).or_default().push(oi);
+                }
+            }
+            let Some(idx) = by_scope.values().find(|v| v.len() >= 3) else { continue };
+            let (x, y) = (idx[idx.len() - 2], idx[idx.len() - 1]);
+            let mut w2 = w.clone();
+            w2.swap(x, y);
+            let exp = self.apply_root(w);
+            let ucall = Call::Multi { root: Some(root.clone()), paths: mpaths2.clone(), sibs: msibs2.clone(), queries: vec![], updates: vec![w2] };
+            let uo = self.check_call(&ucall);
+            let got = field(&uo.rust, "u0").unwrap_or("").to_string();
+            self.stats.add("c07.unsorted-update-sets", 1);
+            if got.starts_with("ok:") && got != format!("ok:{}", hex(&exp)) {
+                self.violate(
+                    "c08-unsorted-update-false-root",
+                    format!("multi-proof verify_update accepts operations that are out of order under one terminal and answers {} - the root of the updated set is {}", short(&got), hex(&exp)),
+                    &line,
+                    &format!("{}\n", ucall.to_line()),
                 );
             }
         }
@@ -2483,7 +2511,14 @@ pub fn run_case(ctx: &mut Ctx, prop: &str, case_seed: u64, idx: usize, thorough:
         "C07" => case_c07(ctx, &mut g),
         "C06" => case_c06(ctx, &mut g),
         "C02" => case_c02(ctx, &mut g),
-        "C08" => case_c08(ctx, &mut g),
+        "C08" => {
+            case_c08(ctx, &mut g);
+            // soundness of UPDATES through honest multi-proofs (incl. operations out of order under one
+            // terminal): the C07 items, every second case
+            if idx % 2 == 0 {
+                case_c07(ctx, &mut g);
+            }
+        }
         "C18" => case_c18(ctx, &mut g, idx),
         p => panic!("core engine: no case generator for property {}", p),
     }
